@@ -546,9 +546,9 @@ sa_addr_port_to_str(const sockaddr_storage_t *addr, char *buf,
 		if (0 != error)
 			goto err_out;
 		buf[0] = '[';
-		buf[size_ret + 0] = ']';
-		buf[size_ret + 1] = 0x00;
-		size_ret ++;
+		buf[size_ret + 1] = ']';
+		buf[size_ret + 2] = 0x00;
+		size_ret += 2;
 		break;
 	default:
 		return (EAFNOSUPPORT);
